@@ -53,7 +53,8 @@ Inductive rule :=
 | KSumOk                                (* |a, b, ..| Ok(a + b + ..) *)
 | KSumSome
 | KFut (inner : rule)                   (* the closure's answer wrapped in a ready future *)
-| KPanic.                               (* the closure panics when called *)
+| KPanic                                (* the closure panics when called *)
+| KPanicEval.                           (* the operand EXPRESSION panics when evaluated *)
 
 Definition sumZ (vs : list val) : option Z :=
   fold_right (fun v acc => match v, acc with VInt z, Some a => Some (z + a)%Z | _, _ => None end) (Some 0%Z) vs.
@@ -116,11 +117,12 @@ Definition handle0 (tbl : list opinfo) (tname : option string) (e : ev) (st : ws
       | Some oi =>
           let entry := "E" +++ show_Z (oi_id oi) +++ (if oi_cap oi then "{" +++ show_snap sn +++ "}" else "") in
           match oi_rule oi with
+          | KPanicEval => (None, entry :: st)
           | KConst v => (Some v, entry :: st)
           | KBlock i =>      (* `{ cap(id, ..); f(i, ..) }`: the inner call logs its own evaluation *)
-              (Some (match lookup_id tbl i with
-                     | Some inner => match oi_rule inner with KConst v => v | _ => VOpq i end
-                     | None => VOpq i end),
+              ((match lookup_id tbl i with
+                | Some inner => match oi_rule inner with KConst v => Some v | KPanicEval => None | _ => Some (VOpq i) end
+                | None => Some (VOpq i) end),
                ("E" +++ show_Z i) :: entry :: st)
           | _ => (Some (VOpq (oi_id oi)), entry :: st)
           end
